@@ -211,10 +211,13 @@ func (g *gen) stmt(depth int) []Node {
 	}
 	g.n++
 	id := fmt.Sprintf("sp%d", g.n)
+	tok := fmt.Sprintf("spt%d", g.n)
 	g.feat["state-probe"] = true
-	out := []Node{&Print{E: Opaque{Src: fmt.Sprintf("sp(%q, \"b\")", id), Val: Str("")}}}
+	// the "before" probe returns a token unique to this dynamic execution; it is kept in a local variable and
+	// handed to the "after" probe, so the two snapshots are paired exactly even when the construct is re-entered
+	out := []Node{&Let{Names: []string{tok}, Es: []Expr{Opaque{Src: fmt.Sprintf("sp(%q, \"b\")", id), Val: Int(0)}}}}
 	out = append(out, ns...)
-	return append(out, &Print{E: Opaque{Src: fmt.Sprintf("sp(%q, \"a\")", id), Val: Str("")}})
+	return append(out, &Print{E: Opaque{Src: fmt.Sprintf("sp(%q, \"a\", %s)", id, tok), Val: Str("")}})
 }
 
 func (g *gen) stmt0(depth int) []Node {
